@@ -5,8 +5,23 @@
   nil or fails (error or panic — the store's recover() wrapper turns both into an error).
 -/
 import GoHeader.Lemmas.StoreCalls
+import GoHeader.Store.SnapRead
 namespace GoHeader.C14
 open GoHeader GoHeader.Store
+
+/-- context-aware datastore (`Store.SnapRead`): whatever the flush loop and appenders do while a deletion runs - any
+    sequence of flushes, appends and deletions of OTHER heights - a header of the range that was stored (datastore or
+    pending batch) when the deletion opened its read transaction is found by its handler, which reads the datastore as
+    it is now (the F34 repair) -/
+theorem c14_handler_finds_header (disk pending : List Nat) (ops : List SnapRead.Op) (h : Nat)
+    (hs : h ∈ disk ∨ h ∈ pending) (hd : ∀ o ∈ ops, o ≠ .delete h) :
+    SnapRead.handlerFinds true (SnapRead.run (SnapRead.openTxn disk pending) ops) h = true :=
+  SnapRead.handler_finds_current _ h (SnapRead.run_keeps ops _ h hs hd)
+
+/-- before the repair the handler read through the deletion's snapshot: pending at the start, flushed meanwhile ⇒ not found -/
+theorem c14_snapshot_misses_before_repair :
+    SnapRead.handlerFinds false (SnapRead.run (SnapRead.openTxn [1] [2, 3]) [.delete 1, .append 4, .flush]) 2 = false :=
+  SnapRead.snapshot_misses
 
 /-- every handler call of a DeleteRange is for a height of the range and happens while that header
     is still readable through GetByHeight. -/
